@@ -88,6 +88,7 @@ class World:
         self.known = None  # KnownFindings matcher (set by driver)
         self.stop_on_violation = False
         self.aborted = None
+        _ROOT[0] = env.root.encode()
 
     def count(self, rule, n=1):
         self.rules[rule] = self.rules.get(rule, 0) + n
@@ -104,9 +105,14 @@ class World:
         self.env.log.add(*[_short(p) for p in parts])
 
 
+_ROOT = [None]
+
+
 def _short(p):
     if isinstance(p, (bytes, bytearray)):
         p = bytes(p)
+        if _ROOT[0] and _ROOT[0] in p:
+            p = p.replace(_ROOT[0], b"<RUN>")
         if len(p) > 200:
             return p[:200].decode("latin-1") + f"...(+{len(p) - 200})"
         return p.decode("latin-1")
@@ -114,8 +120,11 @@ def _short(p):
         return {k: _short(v) for k, v in p.items()}
     if isinstance(p, (list, tuple)):
         return [_short(x) for x in p]
-    if isinstance(p, str) and len(p) > 300:
-        return p[:300] + "..."
+    if isinstance(p, str):
+        if _ROOT[0] and _ROOT[0].decode() in p:
+            p = p.replace(_ROOT[0].decode(), "<RUN>")
+        if len(p) > 300:
+            return p[:300] + "..."
     return p
 
 
@@ -198,10 +207,14 @@ class UserNode:
         done, pend = await asyncio.wait({self.run_task}, timeout=timeout)
         ok = bool(done)
         self.server = None
+        if ok:
+            self.env.process_exit()
         return ok
 
     async def wait_exit(self, timeout):
         done, _ = await asyncio.wait({self.run_task}, timeout=timeout)
+        if done:
+            self.env.process_exit()
         return bool(done)
 
 
